@@ -238,17 +238,19 @@ func cloneR(sc *scen.RScen) *scen.RScen {
 	return t.Clone().R
 }
 
-func shrinkIn(in scen.InputSpec, bt *scen.Built) []scen.InputSpec {
-	var out []scen.InputSpec
+func shrinkIn(in scen.InputSpec, bt *scen.Built) (out []scen.InputSpec) {
 	cl := func() scen.InputSpec {
 		t := &Trace{R: &scen.RScen{In: in}}
 		return t.Clone().R.In
 	}
-	// literalise: the exact bytes, no encoder involved
 	allLit := len(in.Parts) == 1 && in.Parts[0].Enc == "lit" && in.Parts[0].Wrap == "" && len(in.Mut) == 0 && in.Suffix == nil
-	if !allLit && bt != nil && bt.BuildErr == "" && len(bt.Bytes) <= 1<<20 {
-		out = append(out, scen.InputSpec{Parts: []scen.StreamSpec{{Enc: "lit", Lit: append([]byte{}, bt.Bytes...)}}})
-	}
+	defer func() {
+		// literalise last (the exact bytes, no encoder involved): structured
+		// shrinking is tried first because it keeps the trace readable
+		if !allLit && bt != nil && bt.BuildErr == "" && len(bt.Bytes) <= 1<<16 {
+			out = append(out, scen.InputSpec{Parts: []scen.StreamSpec{{Enc: "lit", Lit: append([]byte{}, bt.Bytes...)}}})
+		}
+	}()
 	if allLit {
 		b := in.Parts[0].Lit
 		n := len(b)
